@@ -94,6 +94,7 @@ type Exec struct {
 	defers     []deferred
 	strIters   []*ssa.Range
 	root       *Exec
+	parentExec *Exec
 }
 
 type unsupportedErr struct{ msg string }
@@ -471,6 +472,7 @@ func newExec(q *Q, fn *ssa.Function, parent *Exec) *Exec {
 		reach: map[*ssa.BasicBlock]Term{}, endHeap: map[*ssa.BasicBlock]*Heap{}, lstate: map[*ssa.BasicBlock]*loopState{},
 		counters: map[string]int{}, closures: map[ssa.Value]*ssa.MakeClosure{}, witness: map[string]SV{}}
 	ex.root = ex
+	ex.parentExec = parent
 	if parent != nil {
 		if parent.root != nil {
 			ex.root = parent.root
@@ -1628,3 +1630,78 @@ func (a byIndex) Swap(i, j int)      { a[i], a[j] = a[j], a[i] }
 func (a byIndex) Less(i, j int) bool { return a[i].Index < a[j].Index }
 
 var _ = sort.Sort
+
+// privateAlloc: a local whose address never leaves the function (only loaded/stored through, directly or via
+// field/element addresses): no callee can change it, so its content survives heap havocs.
+func privateAlloc(a *ssa.Alloc) bool {
+	var ok func(v ssa.Value, depth int) bool
+	ok = func(v ssa.Value, depth int) bool {
+		if depth > 4 || v.Referrers() == nil {
+			return false
+		}
+		for _, r := range *v.Referrers() {
+			switch x := r.(type) {
+			case *ssa.DebugRef:
+			case *ssa.UnOp:
+				if x.X != v {
+					return false
+				}
+			case *ssa.Store:
+				if x.Addr != v || x.Val == v {
+					return false
+				}
+			case *ssa.FieldAddr:
+				if !ok(x, depth+1) {
+					return false
+				}
+			case *ssa.IndexAddr:
+				if x.X != v || !ok(x, depth+1) {
+					return false
+				}
+			default:
+				return false
+			}
+		}
+		return true
+	}
+	return ok(a, 0)
+}
+
+// havocAllKeep: forget everything about the heap except the content of this activation's private locals.
+func (ex *Exec) havocAllKeep(h *Heap, guard Term) *Heap {
+	q := ex.q
+	nh := q.havocAll(h, guard)
+	for e := ex; e != nil; e = e.parentExec {
+		for v, ref := range e.vals {
+			a, isAlloc := v.(*ssa.Alloc)
+			if !isAlloc || !privateAlloc(a) {
+				continue
+			}
+			et := a.Type().(*types.Pointer).Elem()
+			func() {
+				defer func() { recover() }()
+				e.copyObject(ref, et, h, nh)
+			}()
+		}
+	}
+	return nh
+}
+
+// copyObject copies the memory content of the object of type t at ref from heap src to heap dst.
+func (ex *Exec) copyObject(ref Term, t types.Type, src, dst *Heap) {
+	q := ex.q
+	switch u := t.Underlying().(type) {
+	case *types.Struct:
+		for i := 0; i < u.NumFields(); i++ {
+			l := ex.fieldLoc(ref, t, i, nil)
+			q.heapSet(dst, l.key, store(q.heapGet(dst, l.key), l.base, sel(q.heapGet(src, l.key), l.base)))
+		}
+	case *types.Array:
+		key := ex.memKey(u.Elem())
+		q.heapSet(dst, key, store(q.heapGet(dst, key), ref, sel(q.heapGet(src, key), ref)))
+	default:
+		s := q.so.sortOf(t)
+		key := ex.regKey("C:"+s, arrSort(sInt, s))
+		q.heapSet(dst, key, store(q.heapGet(dst, key), ref, sel(q.heapGet(src, key), ref)))
+	}
+}
